@@ -231,7 +231,11 @@ func (w *c19World) opCreate() {
 	proposer := sim.NewAccount(fmt.Sprintf("c19prop%d", n))
 	before := l1.Perm.All(l1.Ctx)
 	states := w.snapshotStates(md)
+	faulty := w.armPermFault()
 	id, res := w.env.CreateBridge(w.env.Users[0], proposer, challenger, time.Hour, md)
+	if w.permFaultFired(faulty, "create", before, res) {
+		return
+	}
 	w.run.Evaluations++
 	w.log = append(w.log, fmt.Sprintf("create_bridge challenger=%s metadata=%s -> %s id=%d %s", challenger.Name, trunc(string(md), 120), res.Class, id, res.ErrString()))
 	w.checkGrantOp("create", id, md, challenger.String(), before, states, res)
@@ -258,7 +262,11 @@ func (w *c19World) opUpdateMetadata() {
 	before := l1.Perm.All(l1.Ctx)
 	states := w.snapshotStates(md)
 	signer := mon.Pick(w.rng, []string{r.Proposer.String(), l1.Gov})
+	faulty := w.armPermFault()
 	res := l1.Deliver(ophosttypes.NewMsgUpdateMetadata(signer, id, md))
+	if w.permFaultFired(faulty, "update_metadata", before, res) {
+		return
+	}
 	w.run.Evaluations++
 	w.log = append(w.log, fmt.Sprintf("update_metadata bridge=%d challenger=%s metadata=%s -> %s %s", id, r.Challenger.Name, trunc(string(md), 120), res.Class, res.ErrString()))
 	w.checkGrantOp("update_metadata", id, md, r.Challenger.String(), before, states, res)
@@ -411,4 +419,35 @@ func c19LongLists(run *mon.Run, rng *mon.Rand) {
 		w.opUpdateChallenger()
 		run.Distinct(fmt.Sprintf("long-list/%d", n))
 	}
+}
+
+// armPermFault: in a few operations the lookup "does this channel already have an admin" fails underneath the hook.
+func (w *c19World) armPermFault() bool {
+	if w.forceMD != nil || !w.rng.Chance(6) {
+		return false
+	}
+	p := w.env.L1.Perm
+	p.FailIsTaken, p.IsTakenFailures = true, 0
+	return true
+}
+
+// permFaultFired disarms the fault; if a lookup was failed, the operation could not establish that its channels are free:
+// it must have failed and granted nothing (reports true: the ordinary expectations do not apply to this operation).
+func (w *c19World) permFaultFired(armed bool, kind string, before map[string]string, res sim.Result) bool {
+	if !armed {
+		return false
+	}
+	p := w.env.L1.Perm
+	fired := p.IsTakenFailures > 0
+	p.FailIsTaken = false
+	if !fired {
+		return false
+	}
+	w.run.Evaluations++
+	after := w.env.L1.Perm.All(w.env.L1.Ctx)
+	w.log = append(w.log, fmt.Sprintf("%s while the admin lookup fails -> %s %s", kind, res.Class, res.ErrString()))
+	w.run.Check("C19.grant_conditions_enforced", res.Class != sim.OK && tableString(before) == tableString(after), "c19.capture.lookup_failed."+kind, w.tr(),
+		"%s succeeded (or changed the permission table) although the lookup whether its channels already have an admin failed:\n before %s\n after  %s", kind, tableString(before), tableString(after))
+	w.feat["lookup_fault"]++
+	return true
 }
